@@ -442,6 +442,70 @@ Definition line_and_column (content : bytes) (index : Z) : Z * Z :=
     let '(l, c) := count_lines (newline_symbol content) (firstn (Z.to_nat index) content) 0 0 in
     (l + 1, c + 1).
 
+(* Bytes.BeginningOfLine / EndOfLine and jerr.quote.  None: Go indexes outside the slice *)
+Fixpoint bol_loop (content : bytes) (nl : N) (index : nat) (i : nat) : option nat :=
+  match nth_error content i with
+  | None => None
+  | Some c =>
+      if N.eqb c nl && negb (Nat.eqb i index) then Some (S i)
+      else match i with
+           | O => Some O
+           | S j => bol_loop content nl index j
+           end
+  end.
+
+Definition beginning_of_line (content : bytes) (index : nat) : option nat :=
+  let n := List.length content in
+  match n with
+  | O => None
+  | S m => bol_loop content (newline_symbol content) index (Nat.min index m)
+  end.
+
+Fixpoint eol_loop (nl : N) (rest : bytes) (i : nat) : nat :=
+  match rest with
+  | [] => i
+  | c :: r => if N.eqb c nl then i else eol_loop nl r (S i)
+  end.
+
+Definition end_of_line (content : bytes) (index : nat) : option nat :=
+  let nl := newline_symbol content in
+  let i := eol_loop nl (skipn index content) index in
+  match i with
+  | O => Some O
+  | S j =>
+      match nth_error content j with
+      | None => None
+      | Some c =>
+          if (N.eqb nl 10 && N.eqb c 13) || (N.eqb nl 13 && N.eqb c 10) then Some j else Some i
+      end
+  end.
+
+Definition is_blank (c : N) : bool := (c =? 32)%N || (c =? 9)%N || (c =? 10)%N || (c =? 13)%N.
+
+(* Bytes.TrimSpacesFromLeft: an all-blank slice is returned unchanged *)
+Definition trim_spaces_from_left (b : bytes) : bytes :=
+  match drop_while is_blank b with
+  | [] => b
+  | r => r
+  end.
+
+Definition dots := [46%N; 46%N; 46%N].
+
+Definition quote (content : bytes) (index : Z) : option bytes :=
+  match content with
+  | [] => Some []
+  | _ =>
+      if index <? 0 then None else
+      match beginning_of_line content (Z.to_nat index), end_of_line content (Z.to_nat index) with
+      | Some b, Some e =>
+          if Nat.ltb e b then None
+          else if Nat.ltb 200 (e - b)
+          then Some (trim_spaces_from_left (firstn 197 (skipn b content)) ++ dots)
+          else Some (trim_spaces_from_left (firstn (e - b) (skipn b content)))
+      | _, _ => None
+      end
+  end.
+
 (* ------------------------------------------------------------------------------------ *)
 (* the scanning phase *)
 Record sitem := mkSItem { si_file : N; si_conf : conf; si_at : Z }.
